@@ -177,7 +177,13 @@ func Transform(jsonData []byte) (result []byte, e error) {
 							setError("Missing surrogate")
 						} else {
 							// Output the UTF-32 code point as UTF-8
-							rawString.WriteRune(utf16.DecodeRune(firstUTF16, getUEscape()))
+							// a high surrogate followed by a low one, nothing else: DecodeRune answers U+FFFD
+							// for every other pair and the second escape would be lost
+							pair := utf16.DecodeRune(firstUTF16, getUEscape())
+							if pair == 0xFFFD {
+								setError("Invalid surrogate pair")
+							}
+							rawString.WriteRune(pair)
 						}
 					} else {
 						// Single UTF-16 code identical to UTF-32.  Output as UTF-8
